@@ -35,7 +35,6 @@ def cases(tier, seed):
     if tier == "quick":
         # a quantized LayerNorm fed a float input (its qforward does not quantize the input itself)
         out.append(dict(kind="ema", act="qint8", model="lnorm", momentum=0.5, N=1))
-        out.append(dict(kind="ema", act="qint8", model="lnorm", momentum="sym", N=2))
     return out
 
 
